@@ -407,49 +407,85 @@ type MessageData struct {
 var _ plugintypes.AuditLogMessageData = (*MessageData)(nil)
 
 func (md *MessageData) File() string {
+	if md == nil {
+		return ""
+	}
 	return md.File_
 }
 
 func (md *MessageData) Line() int {
+	if md == nil {
+		return 0
+	}
 	return md.Line_
 }
 
 func (md *MessageData) ID() int {
+	if md == nil {
+		return 0
+	}
 	return md.ID_
 }
 
 func (md *MessageData) Rev() string {
+	if md == nil {
+		return ""
+	}
 	return md.Rev_
 }
 
 func (md *MessageData) Msg() string {
+	if md == nil {
+		return ""
+	}
 	return md.Msg_
 }
 
 func (md *MessageData) Data() string {
+	if md == nil {
+		return ""
+	}
 	return md.Data_
 }
 
 func (md *MessageData) Severity() types.RuleSeverity {
+	if md == nil {
+		return types.RuleSeverityUnset
+	}
 	return md.Severity_
 }
 
 func (md *MessageData) Ver() string {
+	if md == nil {
+		return ""
+	}
 	return md.Ver_
 }
 
 func (md *MessageData) Maturity() int {
+	if md == nil {
+		return 0
+	}
 	return md.Maturity_
 }
 
 func (md *MessageData) Accuracy() int {
+	if md == nil {
+		return 0
+	}
 	return md.Accuracy_
 }
 
 func (md *MessageData) Tags() []string {
+	if md == nil {
+		return nil
+	}
 	return md.Tags_
 }
 
 func (md *MessageData) Raw() string {
+	if md == nil {
+		return ""
+	}
 	return md.Raw_
 }
